@@ -92,6 +92,23 @@ class Run(object):
             if 'use_poll' in scn:
                 kw['use_poll'] = scn['use_poll']
             child = T.SimSpawn('/bin/simchild', **kw)
+        elif tr == 'pxssh':
+            # a pxssh object: the diagnostic string must be buildable before login and afterwards
+            def factory(proc, slave, pty):
+                self.proc, self.pty = proc, pty
+                pty.attr[1] &= ~OPOST
+                proc.exit_gap_us = scn.get('exit_gap_us', 0)
+                self.peer = peers.Actor(w, k, proc, peers.writer(slave, steps, self.wrote), react, 'child')
+                return self.peer
+            w.child_setup = T.default_child_setup(
+                w, factory, pty_kw=dict(out_cap=cap, eof_flavour=scn.get('eof_flavour', 'eio')))
+            kw2 = dict(kw)
+            child = T.SimPxssh(**kw2)
+            try:
+                self.pre_login_str = str(child)
+            except Exception as e:
+                self.pre_login_str = e
+            pexpect.spawn._spawn(child, '/bin/simssh')
         elif tr == 'sock':
             a, bb = k.socketpair(cap)
             self.sock = shim.FakeSocket(a, timeout=scn.get('sock_timeout'))
